@@ -16,7 +16,7 @@ import ast
 import itertools
 
 from sa.harness import H
-from sa.ae import Seq, Builtin, ExtV, Obj, Unknown, Raised, ClassV
+from sa.ae import Seq, SetV, Builtin, ExtV, Obj, Unknown, Raised, ClassV
 from rules import common, c05
 
 LEVEL = "other"
@@ -109,11 +109,24 @@ class Pickler:
         write(pickle.TUPLE)
         self.memoize(obj)
     dispatch[tuple] = save_tuple
+    def save_frozenset(self, obj):
+        # transcription of pickle._Pickler.save_frozenset for protocol >= 4 (below that a frozenset goes through save_reduce, not modelled)
+        save = self.save
+        write = self.write
+        write(pickle.MARK)
+        for item in obj:
+            save(item)
+        if id(obj) in self.memo:
+            write(pickle.POP_MARK + self.get(self.memo[id(obj)][0]))
+            return
+        write(pickle.FROZENSET)
+        self.memoize(obj)
+    dispatch[frozenset] = save_frozenset
     def dump(self, obj):
         self.save(obj)
         self.write(pickle.STOP)
 '''
-PK = {"MARK": b"(", "TUPLE": b"t", "POP": b"0", "POP_MARK": b"1", "TUPLE1": b"\x85", "TUPLE2": b"\x86", "TUPLE3": b"\x87", "EMPTY_TUPLE": b")", "STOP": b".", "PROTO": b"\x80"}
+PK = {"FROZENSET": b"\x91", "MARK": b"(", "TUPLE": b"t", "POP": b"0", "POP_MARK": b"1", "TUPLE1": b"\x85", "TUPLE2": b"\x86", "TUPLE3": b"\x87", "EMPTY_TUPLE": b")", "STOP": b".", "PROTO": b"\x80"}
 LARGE = 65536
 
 
@@ -144,10 +157,11 @@ def trees(maxn):
     return shapes
 
 
-def build(h, g, shape, share=None, leaf_bytes=False, tuples=(), large=False):
+def build(h, g, shape, share=None, leaf_bytes=False, tuples=(), large=False, frozen=False):
     """-> (root, nodes).  A node is a Node object (children list), a bytes leaf (leaf_bytes: the childless nodes below the root; large:
     the first of them is a payload of 64 KiB) or - pre-order indexes in `tuples` - a real tuple of its children.  `share`: (i, j) makes
-    the j-th node (an object) refer to the i-th once more, which may close a cycle.  A tuple cannot be extended afterwards, so a
+    the j-th node (an object) refer to the i-th once more, which may close a cycle; frozen: the `tuples` nodes are frozensets instead.
+    A tuple cannot be extended afterwards, so a
     shape is built bottom-up and the extra reference goes into an object's children list."""
     specs = []
 
@@ -172,7 +186,10 @@ def build(h, g, shape, share=None, leaf_bytes=False, tuples=(), large=False):
                 nodes[idx] = f"leaf-{idx}".encode()
             return nodes[idx]
         if idx in tuples:
-            t = Seq([mk(k) for k in kids], "tuple")
+            if frozen:
+                t = SetV([mk(k) for k in kids], True)
+            else:
+                t = Seq([mk(k) for k in kids], "tuple")
             t.name = f"n{idx}"
             nodes[idx] = t
             return t
@@ -194,7 +211,7 @@ def build(h, g, shape, share=None, leaf_bytes=False, tuples=(), large=False):
 def kids_of(x):
     if isinstance(x, Obj):
         return list(x.fields["children"].items)
-    if isinstance(x, Seq):
+    if isinstance(x, (Seq, SetV)):
         return list(x.items)
     return []
 
@@ -221,6 +238,16 @@ def reference(root, proto=4):
             return
         if isinstance(n, bytes):
             ev.append(b"BYTES8:" + n if (proto >= 4 and len(n) >= LARGE) else b"BYTES:" + n + b";")
+            memoize(n)
+            return
+        if isinstance(n, SetV):
+            ev.append(PK["MARK"])
+            for c in n.items:
+                save(c)
+            if id(n) in memo:
+                ev.append(PK["POP_MARK"] + get(memo[id(n)][0]))
+                return
+            ev.append(PK["FROZENSET"])
             memoize(n)
             return
         if isinstance(n, Seq):
@@ -250,6 +277,122 @@ def reference(root, proto=4):
     return b"".join(ev)
 
 
+class _Loaded:
+    def __init__(self, kind, tag=None):
+        self.kind, self.tag, self.kids = kind, tag, []
+
+
+def load_stream(body):
+    """What an unpickler makes of the token stream (the stand-in's own vocabulary plus pickle's tuple / frozenset / stack opcodes).
+    -> the reconstructed root, or raises ValueError with the reason the stream cannot be loaded."""
+    stack, memo, i, n = [], {}, 0, len(body)
+    MARKER = object()
+
+    def pop_to_mark():
+        items = []
+        while stack:
+            x = stack.pop()
+            if x is MARKER:
+                return list(reversed(items))
+            items.append(x)
+        raise ValueError("no MARK on the stack")
+
+    def token(prefix):
+        nonlocal i
+        j = body.index(b";", i)
+        val = body[i + len(prefix):j]
+        i = j + 1
+        return val
+
+    while i < n:
+        if body.startswith(b"OPEN:", i):
+            o = _Loaded("obj", token(b"OPEN:").decode())
+            stack.append(o)
+            stack.append(MARKER)
+        elif body.startswith(b"CLOSE:", i):
+            tag = token(b"CLOSE:").decode()
+            kids = pop_to_mark()
+            if not stack or not isinstance(stack[-1], _Loaded) or stack[-1].tag != tag:
+                raise ValueError(f"CLOSE {tag} does not match the object on the stack")
+            stack[-1].kids = kids
+        elif body.startswith(b"BYTES8:", i):
+            i += 7
+            stack.append(body[i:i + LARGE])
+            i += LARGE
+        elif body.startswith(b"BYTES:", i):
+            stack.append(token(b"BYTES:"))
+        elif body.startswith(b"PUT", i):
+            k = int(token(b"PUT"))
+            if k in memo:
+                raise ValueError(f"memo slot {k} written twice")
+            # an object is memoised right after it was opened: its children's marker is already on the stack
+            top = stack[-1] if stack and stack[-1] is not MARKER else (stack[-2] if len(stack) >= 2 and isinstance(stack[-2], _Loaded) and stack[-2].kind == "obj" and not stack[-2].kids else None)
+            if top is None or top is MARKER:
+                raise ValueError("PUT with nothing on the stack")
+            memo[k] = top
+        elif body.startswith(b"GET", i):
+            k = int(token(b"GET"))
+            if k not in memo:
+                raise ValueError(f"GET of memo slot {k} before it was written")
+            stack.append(memo[k])
+        else:
+            op = body[i:i + 1]
+            i += 1
+            if op == PK["MARK"]:
+                stack.append(MARKER)
+            elif op == PK["TUPLE"] or op == PK["FROZENSET"]:
+                t = _Loaded("tuple" if op == PK["TUPLE"] else "frozenset")
+                t.kids = pop_to_mark()
+                stack.append(t)
+            elif op in (PK["TUPLE1"], PK["TUPLE2"], PK["TUPLE3"]):
+                k = {PK["TUPLE1"]: 1, PK["TUPLE2"]: 2, PK["TUPLE3"]: 3}[op]
+                if len(stack) < k or any(x is MARKER for x in stack[-k:]):
+                    raise ValueError("short tuple opcode without enough items")
+                t = _Loaded("tuple")
+                t.kids = stack[-k:]
+                del stack[-k:]
+                stack.append(t)
+            elif op == PK["EMPTY_TUPLE"]:
+                stack.append(_Loaded("tuple"))
+            elif op == PK["POP"]:
+                if not stack:
+                    raise ValueError("POP on an empty stack")
+                stack.pop()
+            elif op == PK["POP_MARK"]:
+                pop_to_mark()
+            else:
+                raise ValueError(f"unknown token at byte {i - 1}: {_brief(body[i - 1:i + 20])}")
+    if len(stack) != 1 or stack[0] is MARKER:
+        raise ValueError(f"{len(stack)} item(s) left on the stack at STOP")
+    return stack[0]
+
+
+def shape_of(root, loaded):
+    """canonical description (kinds, order of children, sharing) of an original (abstract values) or a loaded (_Loaded) graph"""
+    seen, out = {}, []
+
+    def walk(x):
+        if isinstance(x, bytes):
+            out.append(("bytes", len(x), x[:12]))
+            return
+        if id(x) in seen:
+            out.append(("ref", seen[id(x)]))
+            return
+        seen[id(x)] = len(seen)
+        if loaded:
+            out.append((x.kind, x.tag, len(x.kids)))
+            kids = x.kids
+        else:
+            kind = "obj" if isinstance(x, Obj) else ("frozenset" if isinstance(x, SetV) else "tuple")
+            out.append((kind, x.name if kind == "obj" else None, len(kids_of(x))))
+            kids = kids_of(x)
+        for k in kids:
+            walk(k)
+
+    walk(root)
+    return out
+
+
 def _brief(b_):
     r = repr(b_)
     return r if len(r) <= 120 else r[:60] + "..." + r[-50:]
@@ -258,7 +401,7 @@ def _brief(b_):
 def on_cycle(node, only_tuples=False):
     """is the node reachable from itself through children references (only_tuples: through tuples alone)?"""
     def kids(x):
-        return [c for c in kids_of(x) if isinstance(c, (Obj, Seq)) and (not only_tuples or isinstance(c, Seq))]
+        return [c for c in kids_of(x) if isinstance(c, (Obj, Seq, SetV)) and (not only_tuples or isinstance(c, (Seq, SetV)))]
     seen, stack = set(), kids(node)
     while stack:
         x = stack.pop()
@@ -269,6 +412,19 @@ def on_cycle(node, only_tuples=False):
         seen.add(id(x))
         stack += kids(x)
     return False
+
+
+FROZEN_REPLAY = """import pickle
+from edgegraph.structure import Vertex
+from edgegraph.output import nrpickler
+a, b = Vertex(), Vertex()
+group = frozenset({a, b})     # a frozenset shared by the vertices it contains: it lies on a reference cycle
+a.group = group
+b.group = group
+copy = pickle.loads(pickle.dumps(a))          # the recursive pickler copes
+assert copy.group is next(iter(copy.group)).group
+nrpickler.dumps(a)                            # AssertionError from pickle's memoize (the frozenset is memoised twice)
+"""
 
 
 TUPLE_REPLAY = """import pickle
@@ -335,15 +491,18 @@ def run(ctx):
         if size >= 2:
             tcases.append((s_, sh_, False, tuple(range(1, size)), None))
     cases += tcases
+    # the same with frozensets (protocol >= 4: saved like a tuple - elements first, then "memoised meanwhile?", then memoise)
+    cases += [(s_, sh_, "frozen", t_, None) for s_, sh_, lb_, t_, pr_ in tcases if pr_ is None and lb_ is False]
     # a payload of 64 KiB among the leaves: the recursive pickler writes it straight to the file, whatever write() has been replaced by
     cases += [(s_, sh_, "large", (), None) for s_, sh_, lb_, _, _ in list(cases) if lb_ is True and (sh_ is None or ctx.thorough)]
+    h.w.set_order = "insertion"       # a frozenset is walked in one order by the stand-in and by the reference alike
     for shape, share, leaf_bytes, tuples, proto in cases:
         for entry in ("dumps", "dump"):
             try:
                 h.reset()
                 h.settle()
-                root, nodes = build(h, stub, shape, share, bool(leaf_bytes), tuples, large=(leaf_bytes == "large"))
-                if tuples and any(on_cycle(nodes[t], only_tuples=True) for t in tuples if t < len(nodes) and isinstance(nodes[t], Seq)):
+                root, nodes = build(h, stub, shape, share, leaf_bytes is True or leaf_bytes == "large", tuples, large=(leaf_bytes == "large"), frozen=(leaf_bytes == "frozen"))
+                if tuples and any(on_cycle(nodes[t], only_tuples=True) for t in tuples if t < len(nodes) and isinstance(nodes[t], (Seq, SetV))):
                     continue        # a reference cycle made of tuples only cannot be built (tuples are immutable)
                 kw = {} if proto is None else {"protocol": proto}
                 if entry == "dumps":
@@ -386,17 +545,25 @@ def run(ctx):
                         why += (" - the payload of 64 KiB, which the recursive pickler writes straight to the file (pickle._Framer.write_large_bytes), reached the file ahead of operations that "
                                 "precede it in the stream: what goes through write() is held back somewhere on its way to the file")
                 elif body != want:
-                    k = next((i for i, (x, y) in enumerate(zip(body, want)) if x != y), min(len(body), len(want)))
-                    why = (f"the operations reach the file in another order than the recursive pickler produces: from byte {k} the stream reads {_brief(body[max(0, k - 12):k + 60])}, "
-                           f"the recursive pickler's {_brief(want[max(0, k - 12):k + 60])}")
+                    # another stream than the recursive pickler's: it may still load to the same graph (e.g. a duplicate that is built and
+                    # dropped again); what counts is what an unpickler makes of it - same kinds, same order, shared objects shared
+                    try:
+                        back = load_stream(body)
+                        if shape_of(back, True) != shape_of(root, False):
+                            why = (f"the stream loads to another graph than the one pickled: {shape_of(back, True)[:8]} instead of {shape_of(root, False)[:8]} "
+                                   f"(stream {_brief(body)}, the recursive pickler's {_brief(want)})")
+                    except ValueError as e:
+                        k = next((i for i, (x, y) in enumerate(zip(body, want)) if x != y), min(len(body), len(want)))
+                        why = (f"the stream cannot be loaded ({e}): from byte {k} it reads {_brief(body[max(0, k - 12):k + 60])}, "
+                               f"the recursive pickler's {_brief(want[max(0, k - 12):k + 60])}")
             res.ob(why is None, sig=(shape, share, entry, leaf_bytes, tuples, proto), sample={"shape": str(shape), "shared": share, "entry": entry, "bytes_leaves": leaf_bytes, "tuples": list(tuples), "protocol": p_eff})
             if why:
-                cyc = bool(tuples) and any(on_cycle(nodes[t]) for t in tuples if t < len(nodes) and isinstance(nodes[t], Seq))
-                res.violation("SPLICE-ORDER", MOD + "._NonrecursivePickler.dump", f"shared-object={share is not None},entry={entry}" + (",leaves-are-bytes-values" if leaf_bytes else "") + (",payload-of-64KiB" if leaf_bytes == "large" else "")
-                              + (f",tuple-like-node-on-a-cycle={cyc}" if tuples else ""),
-                              f"object graph {shape} share={share}{' (childless nodes are bytes values' + (', one of 64 KiB)' if leaf_bytes == 'large' else ')') if leaf_bytes else ''}{' with tuples at ' + str(list(tuples)) if tuples else ''}"
+                cyc = bool(tuples) and any(on_cycle(nodes[t]) for t in tuples if t < len(nodes) and isinstance(nodes[t], (Seq, SetV)))
+                res.violation("SPLICE-ORDER", MOD + "._NonrecursivePickler.dump", f"shared-object={share is not None},entry={entry}" + (",leaves-are-bytes-values" if leaf_bytes in (True, "large") else "") + (",payload-of-64KiB" if leaf_bytes == "large" else "")
+                              + (f",{'frozenset' if leaf_bytes == 'frozen' else 'tuple-like-node'}-on-a-cycle={cyc}" if tuples else ""),
+                              f"object graph {shape} share={share}{' (childless nodes are bytes values' + (', one of 64 KiB)' if leaf_bytes == 'large' else ')') if leaf_bytes in (True, 'large') else ''}{' with ' + ('frozensets' if leaf_bytes == 'frozen' else 'tuples') + ' at ' + str(list(tuples)) if tuples else ''}"
                               f"{'' if proto is None else ' protocol ' + str(proto)} through {entry}: {why}",
-                              replay=TUPLE_REPLAY if cyc else "")
+                              replay=(FROZEN_REPLAY if leaf_bytes == "frozen" else TUPLE_REPLAY) if cyc else "")
     res.rule("SPLICE-ORDER", n)
     # ---- NONREC: constant call depth on chains
     depths = {}
